@@ -24,8 +24,8 @@ def specApply (s : SpecSt) : EOp → SpecSt
   | .ins r ts => specPut s r (ts.foldr insertNat (specGet s r))
   | .del r ts => specPut s r ((specGet s r).filter (fun t => t ∉ ts))
   | .dropRel r => specPut s r []
-  | .flushAll => s
-  | .compactAll => s
+  | .flushAll _ => s
+  | .compactAll _ => s
 
 def hasDup : List Nat → Bool
   | [] => false
@@ -44,11 +44,11 @@ def specJudge : SpecSt → Option SpecSt → List HItem → List Out → Bool
   | _, _, _, [] => true
   | s, p, items, .opened v _ :: outs => (decide (v = s) || decide (p = some v)) && specJudge v none items outs
   | _, _, _, .openFailed :: _ => false
-  | s, p, .op o :: items, .ack ok _ :: outs =>
+  | s, p, .op o :: items, .ack ok _ _ :: outs =>
     if c11Shape s o then true else specJudge (if ok then specApply s o else s) p items outs
-  | s, _, .opCrash o _ _ :: items, .crashed :: outs =>
+  | s, _, .opCrash o _ _ :: items, .crashed _ :: outs =>
     if c11Shape s o then true else specJudge s (some (specApply s o)) items outs
-  | s, p, _ :: items, .crashed :: outs => specJudge s p items outs
+  | s, p, _ :: items, .crashed _ :: outs => specJudge s p items outs
   | _, _, _, _ :: _ => true
 
 end ILV.Spec.C13
